@@ -932,11 +932,24 @@ def check_C11(ctx):
                ('destructor_of_other_key', mut_first(lambda e: e['e'] == 'U_Dtor' and e['a'][2] != 0, set_arg(1, lambda v: 1 + v % 3)))])
 
 
+def mut_timedout_deadline(evs):
+    """move the deadline of a timedlock call that timed out 100 s into the future: the time-out is then premature"""
+    for i, e in enumerate(evs):
+        if e['e'] == 'U_TimedLockCall':
+            for f in evs[i + 1:]:
+                if f['e'] == 'U_TimedLockRet' and f['a'][0] == e['a'][0]:
+                    if f['a'][2] == 110:
+                        evs[i]['a'][2] += 100
+                        return evs
+                    break
+    return None
+
+
 def check_C20(ctx):
     std_check(ctx, [('MC_Sync', 'MC_Sync_timed2.cfg')], gen_timed_prog, 30, 6,
               [('early_wakeup', mut_pair(lambda a, b: a['e'] == 'Clock' and b['e'] == 'YieldBeg' and a['w'] == b['w'], lambda evs, i: evs[:i + 1] + [{'w': evs[i]['w'], 'e': 'U_NanosleepRet', 'a': [0, 0]}] + evs[i + 1:])),
                ('einval_accepted', mut_first(lambda e: e['e'] == 'U_NanosleepRet' and e['a'][1] == 22, set_arg(1, 0))),
-               ('timeout_before_deadline', mut_first(lambda e: e['e'] == 'U_TimedLockCall', set_arg(2, lambda v: v + 100))),
+               ('timeout_before_deadline', mut_timedout_deadline),
                ('deadline_arith', mut_first(lambda e: e['e'] == 'U_NanosleepCall' and e['a'][1] >= 0 and 0 <= e['a'][2] < 10 ** 9, set_arg(1, lambda v: v + 1)))],
               thorough_designs=[('MC_Sync', 'MC_Sync_timed.cfg')])
 
@@ -1330,6 +1343,10 @@ def main():
         return ctx.finish()
     except Infra as e:
         print('INFRASTRUCTURE ERROR (not a verdict): %s' % e)
+        if ctx.violations:
+            # violations already established (and reproduced) stand; the evidence records the interruption
+            ctx.assumptions.append('run interrupted by an infrastructure error after the violations were established: %s' % e)
+            return ctx.finish()
         return 2
 
 
@@ -1491,9 +1508,14 @@ def gen_tls_prog(rng, churn=False):
     slot = 100
     # (12..14, 28, 61.., 253..: the keys under test straddle a leaf / node boundary of the tree, slot 15 of a leaf included)
     fill = rng.choice((0, 0, 3, 12, 13, 14, 15, 16, 17, 28, 29, 61, 62, 63, 64, 253, 254, 255, 256, 257, 300, 511, 767, 1019)) if not churn else rng.choice((0, 2))
+    nk = rng.randint(2, 5)
+    if not churn and rng.random() < 0.5:
+        # place the keys under test across a leaf boundary of the tree: key r sits in the last cell (15) of a leaf,
+        # key r-1 in the same leaf, key r+1 in the next leaf (next node for j = 3, 15, 63)
+        r = rng.randrange(1, nk)
+        fill = 16 * rng.choice((0, 0, 1, 3, 4, 15, 16, 17, 63)) + 15 - r
     for i in range(fill):
         ops.append((OP['KCREATE'], slot, rng.choice((0, 1, 2, 3)), 0)); slot += 1
-    nk = rng.randint(2, 5)
     dts = [rng.choice((0, 1, 2, 3)) for _ in range(nk)]
     for i in range(nk):
         ops.append((OP['KCREATE'], i, dts[i], 0))
@@ -1511,7 +1533,7 @@ def gen_tls_prog(rng, churn=False):
     cancelled = []
     for t in range(1, nt + 1):
         b = []
-        for _ in range(rng.randint(1, 8)):
+        for _ in range(rng.randint(1, 10)):
             r = rng.random()
             k = rng.randrange(nk)
             if r < 0.4:
